@@ -460,9 +460,24 @@ func (it *Interp) symIndexCheck(s *State, x *ssa.IndexAddr, idx IntV, n int) boo
 		it.fault(s, "index", x, fmt.Sprintf("index in [%d,%d] out of range for %s of length %d", lo, hi, operandText(x.X), n))
 		return true
 	}
+	// an attacker-chosen value whose interval (exactly what the guards so far allow) reaches beyond
+	// the length can be chosen to fault
+	if it.Hostile && !idx.Opq && !s.sym(idx.Sym).Inexact && !s.sym(idx.Sym).Bounded && (hi >= int64(n) || lo < 0) {
+		it.fault(s, "index", x, fmt.Sprintf("the guards allow an attacker-chosen index in [%d,%d] but %s has length %d", lo, hi, operandText(x.X), n))
+		// keep exploring the in-range alternative
+		f := it.Faults[len(it.Faults)-1]
+		f.Trail = append(f.Trail, trailEntry{Pos: it.p.InstrPos(x), Desc: fmt.Sprintf("decoded value chosen as %d", minI64(hi, int64(n))), Opq: false})
+	}
 	// execution continues only when the index was in range
 	it.assume(s, idx, token.LSS, int64(n))
 	return false
+}
+
+func minI64(a, b int64) int64 {
+	if a < b {
+		return a
+	}
+	return b
 }
 
 // assume narrows a symbolic value after an operation that would have faulted otherwise.
